@@ -193,6 +193,22 @@ def apply_directives(body, directives, unit):
                     j += 1
                 expr = body.src[toks[j + 1].start:toks[lo - 1].end]
                 pat = body.src[toks[kw + 1].start:toks[j - 1].end]
+                ms = re.fullmatch(r"(\S+)\s+strip=(\S+)", val.strip())
+                if ms:
+                    # `loopK.via: F strip=.values()`: the loop runs over `<E>.values()`; F is handed `&<E>` (the collection itself, so that
+                    # F's contract can speak about the map). A loop that no longer has this shape is a lost anchor.
+                    val = ms.group(1)
+                    if not re.sub(r"\s+", "", expr).endswith(ms.group(2)):
+                        raise LostAnchor(f"{body.qual}: loop #{k} does not iterate over `…{ms.group(2)}`")
+                    cut = expr.rstrip()
+                    want = ms.group(2)
+                    # drop the suffix token by token (whitespace-insensitive)
+                    q = lo - 1
+                    acc = ""
+                    while q > j and re.sub(r"\s+", "", acc) != want:
+                        acc = toks[q].text + acc
+                        q -= 1
+                    expr = "&" + body.src[toks[j + 1].start:toks[q].end]
                 if what == "via":
                     if expr.strip().endswith(".iter()"):
                         expr = "&" + expr.strip()[:-len(".iter()")]
